@@ -307,7 +307,7 @@ SEAT_TIER = {
                      anon=[(5, ["-emit", "changing"]), (6, ["-emit", "next", "-sample", "6"])],
                      random_runs=12000, steps=90, sim_num=3000, conc_runs=3000),
 }
-SEAT_IGNORE = '{"C08.lateJoiner.seatStillActive"}'     # known finding F8: reported from real traces, not from the model
+SEAT_IGNORE = '{"C08.lateJoiner.seatVacatedSinceBlindsSet"}'     # known finding F8: reported from real traces, not from the model
 
 
 def seat_sim_scripts(work, num, seed, outpath):
